@@ -13,19 +13,19 @@ import (
 
 func init() {
 	register(&Rule{ID: "R15.write-gates", Props: []string{"C15", "C18", "C03"}, Floor: 20,
-		Text: "every lock-table arm with write=true, and the eval/evalsha arm, tests followHost() != \"\" and readOnly() and returns the error before dispatch; the three script class switches have identical write lists, each within the lock-table write class; AtomicRW/NonAtomic gate their write arm the same way and AtomicRO returns errReadOnly for exactly that list",
+		Text: "scenario evaluation of the lock switch of handleInputCommand and of the three script class switches: for every arm with write=true (and the eval/evalsha arm), with followHost() != \"\" — and, separately, with followHost() == \"\" and readOnly() — no path leaves the switch towards the dispatch (tests may sit in the arm or in a helper it consults: the helper is evaluated in the same situation); the read arms of the script switches likewise with followHost() != \"\" && !caughtUpOnce(); the three script class switches have identical write lists, each within the lock-table write class; AtomicRO returns errReadOnly for exactly that list",
 		Run:  ruleWriteGates})
 	register(&Rule{ID: "R15.read-gate", Props: []string{"C15", "C06"}, Floor: 20,
-		Text: "every dispatch-table handler that reads objects (cols or a collection) is in a lock-table class with the catching-up gate (followHost() != \"\" && !caughtUpOnce()), or is in the reviewed table of non-object reads; the script read lists carry the same gate and are within the gated lock-table read class plus the reviewed extras",
+		Text: "every dispatch-table handler that reads objects (cols or a collection) is in a lock-table class whose arm, evaluated in the situation followHost() != \"\" && !caughtUpOnce(), never leaves the lock switch towards the dispatch, or is in the reviewed table of non-object reads; the script read lists carry the same gate and are within the gated lock-table read class plus the reviewed extras",
 		Run:  ruleReadGate})
 	register(&Rule{ID: "R15.auth-dominates", Props: []string{"C15"}, Floor: 4,
-		Text: "in handleInputCommand the authentication block dominates the lock switch and the dispatch; the commands that bypass it (early replies before it, exemptions in its condition) are within {ping echo output healthz auth} plus hello (error only)",
+		Text: "scenario evaluation of handleInputCommand with a password configured, client.authd false and the dataset loaded, for a message with and without an Auth field: an ordinary command (one that no constant of the function names) never reaches the lock switch without passing the store client.authd = true, and every return it can reach is the refusal (or a static page of the built-in viewer); of the commands the function names, only output and healthz reach the lock switch unauthenticated, and only ping, echo, hello (an error), timeout (an error), output and auth are answered before the password test",
 		Run:  ruleAuthDominates})
 	register(&Rule{ID: "R15.authd-store", Props: []string{"C15"}, Floor: 1,
 		Text: "every store of true to Client.authd anywhere in the server is dominated by the false edge of requirePass() != TrimSpace(password)",
 		Run:  ruleAuthdStore})
 	register(&Rule{ID: "R15.protected-first", Props: []string{"C15"}, Floor: 1,
-		Text: "in the connection closure of netServe the loop-back prefix test and isProtected() dominate the first conn.Read, and the protected branch returns",
+		Text: "scenario evaluation of the connection closure of netServe: for a peer that is not a loop-back address (both prefix tests false, in the closure or in a predicate it calls) on a protected server (isProtected() true) no path reaches conn.Read; for a loop-back peer and for an unprotected server it does",
 		Run:  ruleProtectedFirst})
 	register(&Rule{ID: "R15.exhaustive", Props: []string{"C15"}, Floor: 55,
 		Text: "every command of the documented command table (core.commandsJSON) is a dispatch-table key or is handled before dispatch (ping, quit, auth, timeout), and every dispatch-table key is classified by computed effect: mutating → write class (R3.write-class), object-reading → gated read class (R15.read-gate)",
@@ -99,10 +99,12 @@ func ruleWriteGates(c *Ctx) {
 				ltWrite[s] = true
 			}
 		}
-		c.check(lc.GateKind["not the leader"] == "follower", "lock-table/"+name+"/not-the-leader", cl.Clause.Pos(),
-			"arm returns 'not the leader' when followHost() != \"\"", "write arm lacks the follower gate (followHost() != \"\" → 'not the leader')")
-		c.check(lc.GateKind["read only"] == "readonly", "lock-table/"+name+"/read-only", cl.Clause.Pos(),
-			"arm returns 'read only' when readOnly()", "write arm lacks the read-only gate (readOnly() → 'read only')")
+		g1, w1 := c.armGated(ct.HIC, ct.LT.Stmt, cl.Strings[0], "follower")
+		c.checkPath(g1, "lock-table/"+name+"/not-the-leader", cl.Clause.Pos(), w1,
+			"with followHost() != \"\" control never leaves the lock switch through this arm: the command is refused before the dispatch", "write arm lacks the follower gate: with followHost() != \"\" the command reaches the dispatch")
+		g2, w2 := c.armGated(ct.HIC, ct.LT.Stmt, cl.Strings[0], "readonly")
+		c.checkPath(g2, "lock-table/"+name+"/read-only", cl.Clause.Pos(), w2,
+			"with readOnly() control never leaves the lock switch through this arm", "write arm lacks the read-only gate: on a read-only leader the command reaches the dispatch")
 		c.check(lc.Lock == LX, "lock-table/"+name+"/exclusive", cl.Clause.Pos(), "arm takes the exclusive lock", "write arm does not take the exclusive lock")
 	}
 	// script class switches
@@ -152,10 +154,12 @@ func ruleWriteGates(c *Ctx) {
 					c.check(contains(lc.Returns, "errReadOnly"), "script/"+n+"/write-arm-refused", cl.Clause.Pos(),
 						"write commands return errReadOnly unconditionally", "read-only script class does not refuse its write list")
 				default:
-					c.check(lc.GateKind["errNotLeader"] == "follower", "script/"+n+"/not-the-leader", cl.Clause.Pos(),
-						"write arm returns errNotLeader when followHost() != \"\"", "script write arm lacks the follower gate")
-					c.check(lc.GateKind["errReadOnly"] == "readonly", "script/"+n+"/read-only", cl.Clause.Pos(),
-						"write arm returns errReadOnly when readOnly()", "script write arm lacks the read-only gate")
+					g1, w1 := c.armGated(fn, ss.Stmt, cl.Strings[0], "follower")
+					c.checkPath(g1, "script/"+n+"/not-the-leader", cl.Clause.Pos(), w1,
+						"with followHost() != \"\" control never leaves the class switch through the write arm", "script write arm lacks the follower gate")
+					g2, w2 := c.armGated(fn, ss.Stmt, cl.Strings[0], "readonly")
+					c.checkPath(g2, "script/"+n+"/read-only", cl.Clause.Pos(), w2,
+						"with readOnly() control never leaves the class switch through the write arm", "script write arm lacks the read-only gate")
 					if n == "luaTile38NonAtomic" {
 						c.check(lc.Lock == LX && lc.Problem == "", "script/"+n+"/write-lock", cl.Clause.Pos(),
 							"write arm takes the exclusive lock with a deferred release", "non-atomic script write arm does not take the exclusive lock: "+lc.Problem)
@@ -165,8 +169,9 @@ func ruleWriteGates(c *Ctx) {
 				for _, s := range cl.Strings {
 					k.read[s] = true
 				}
-				c.check(lc.GateKind["errCatchingUp"] == "catchingup", "script/"+n+"/catching-up", cl.Clause.Pos(),
-					"read arm returns errCatchingUp when followHost() != \"\" && !caughtUpOnce()", "script read arm lacks the catching-up gate")
+				g3, w3 := c.armGated(fn, ss.Stmt, cl.Strings[0], "catchingup")
+				c.checkPath(g3, "script/"+n+"/catching-up", cl.Clause.Pos(), w3,
+					"with followHost() != \"\" && !caughtUpOnce() control never leaves the class switch through the read arm", "script read arm lacks the catching-up gate")
 				if n == "luaTile38NonAtomic" {
 					c.check(lc.Lock == LR && lc.Problem == "", "script/"+n+"/read-lock", cl.Clause.Pos(),
 						"read arm takes the shared lock with a deferred release", "non-atomic script read arm does not take the shared lock: "+lc.Problem)
@@ -265,6 +270,7 @@ func ruleReadGate(c *Ctx) {
 	ct := a.ct
 	objLocs := map[string]bool{"Server.cols": true, "Collection": true}
 	gatedRead := map[string]bool{}
+	gatedClass := map[*LockClass]bool{}
 	for _, cl := range ct.DT.Clauses {
 		if cl.IsDefault {
 			continue
@@ -284,7 +290,15 @@ func ruleReadGate(c *Ctx) {
 					rd = append(rd, a.lk.reads(u, objLocs)...)
 				}
 			}
-			gated := lc != nil && lc.GateKind["catching up to leader"] == "catchingup"
+			gated := false
+			if lc != nil {
+				if g, ok := gatedClass[lc]; ok {
+					gated = g
+				} else {
+					gated, _ = c.armGated(ct.HIC, ct.LT.Stmt, ltKey, "catchingup")
+					gatedClass[lc] = gated
+				}
+			}
 			if gated {
 				gatedRead[cmd] = true
 			}
@@ -346,111 +360,164 @@ func ruleAuthDominates(c *Ctx) {
 	info := hic.Info()
 	fg := newFlowGraph(info, hic.Decl.Body)
 	authd := c.Field("internal/server", "Client", "authd")
-	// the auth block: the if statement whose condition reads client.authd
-	var authIf *ast.IfStmt
-	inspectNoLit(hic.Decl.Body, func(n ast.Node) bool {
-		if s, ok := n.(*ast.IfStmt); ok && authIf == nil {
-			reads := false
-			ast.Inspect(s.Cond, func(x ast.Node) bool {
-				if se, ok := x.(*ast.SelectorExpr); ok && selField(info, se) == authd {
-					reads = true
-				}
-				return true
-			})
-			if reads {
-				authIf = s
-			}
-		}
-		return true
-	})
-	if authIf == nil {
-		c.bad("auth-block", hic.Decl.Pos(), "no test of client.authd in handleInputCommand")
+	if authd == nil {
+		c.und("anchors", 0, "Client.authd not found")
 		return
 	}
-	al := fg.LocOf(authIf.Cond)
-	sl := fg.LocOf(ct.LT.Stmt.Tag)
-	c.check(al.Valid() && sl.Valid() && fg.Dominates(al, sl), "auth-dominates-lock-switch", authIf.Pos(),
-		"the authd test dominates the lock switch (and therefore the dispatch)", "the lock switch is reachable without passing the authentication test")
-	// exemptions in the condition: cmd != "x" conjuncts; and `cmd == "auth"` disjunct
-	allowed := map[string]bool{"ping": true, "echo": true, "output": true, "healthz": true, "auth": true}
-	var exempt []string
-	ast.Inspect(authIf.Cond, func(n ast.Node) bool {
-		if be, ok := n.(*ast.BinaryExpr); ok && be.Op == token.NEQ {
-			if v, ok := constString(info, be.Y); ok {
-				exempt = append(exempt, v)
-			} else if v, ok := constString(info, be.X); ok {
-				exempt = append(exempt, v)
-			}
+	reads := 0
+	inspectNoLit(hic.Decl.Body, func(n ast.Node) bool {
+		if se, ok := n.(*ast.SelectorExpr); ok && selField(info, se) == authd {
+			reads++
 		}
 		return true
 	})
-	var badEx []string
-	for _, e := range exempt {
-		if !allowed[e] {
-			badEx = append(badEx, e)
-		}
+	if reads == 0 {
+		c.bad("auth-block", hic.Decl.Pos(), "client.authd is never read in handleInputCommand: no command is held back for authentication")
+		return
 	}
-	c.check(len(badEx) == 0, "auth-exemptions", authIf.Pos(), fmt.Sprintf("commands exempt from the password test %v ⊆ {ping echo output healthz auth}", exempt),
-		fmt.Sprintf("commands %v bypass the password test", badEx))
-	// the condition must enter the block when !authd (the negation of authd is a disjunct of the entry condition)
-	shapeOK := false
-	ast.Inspect(authIf.Cond, func(n ast.Node) bool {
-		if ue, ok := n.(*ast.UnaryExpr); ok && ue.Op == token.NOT {
-			if se, ok := ast.Unparen(ue.X).(*ast.SelectorExpr); ok && selField(info, se) == authd {
-				shapeOK = true
+	// the situation: a password is configured, this connection has not authenticated, the dataset is loaded.
+	// A path that stores client.authd = true has authenticated (R15.authd-store decides when that store may
+	// happen) and is not followed.
+	authStore := func(l Loc) bool {
+		as, ok := l.Node.(*ast.AssignStmt)
+		if !ok {
+			return false
+		}
+		for _, lhs := range as.Lhs {
+			if selField(info, lhs) == authd {
+				return true
 			}
 		}
-		return true
-	})
-	c.check(shapeOK, "auth-entry-on-unauthenticated", authIf.Pos(), "the block is entered when !client.authd", "the authentication block is not entered on !client.authd")
-	// inside the block: when requirePass() != "" and the command is not auth and carries no Auth → return error
-	// (structural: the block contains a return of "authentication required" dominated by requirePass() != "")
-	found := false
-	ast.Inspect(authIf.Body, func(n ast.Node) bool {
-		if r, ok := n.(*ast.ReturnStmt); ok {
-			for _, s := range returnStrings(info, r) {
-				if s == "authentication required" {
-					found = true
+		return false
+	}
+	atSwitch := func(l Loc) bool { return l.Node.Pos() >= ct.LT.Stmt.Pos() }
+	scen := func(cmd string, generic bool, msgauth byte) Scenario {
+		return c.serverScenario(map[string]byte{"authd": '0', "requirepass": '1', "loaded": '1', "msgauth": msgauth}, cmd, generic)
+	}
+	// the command constants the function distinguishes before the lock switch
+	consts := map[string]bool{}
+	isCmd := func(x ast.Expr) bool {
+		x = ast.Unparen(x)
+		if isCommandCall(info, x) {
+			return true
+		}
+		if _, ok := x.(*ast.Ident); ok {
+			return isCommandCall(info, resolveLocal(info, hic.Decl.Body, x))
+		}
+		return false
+	}
+	inspectNoLit(hic.Decl.Body, func(n ast.Node) bool {
+		if n == nil || n.Pos() >= ct.LT.Stmt.Pos() {
+			return n == nil || n.Pos() < ct.LT.Stmt.Pos()
+		}
+		switch x := n.(type) {
+		case *ast.BinaryExpr:
+			if x.Op == token.EQL || x.Op == token.NEQ {
+				for _, side := range [][2]ast.Expr{{x.X, x.Y}, {x.Y, x.X}} {
+					if v, ok := constString(info, side[1]); ok && isCmd(side[0]) {
+						consts[v] = true
+					}
 				}
 			}
-		}
-		return true
-	})
-	c.check(found, "auth-required-reply", authIf.Pos(), "unauthenticated commands are answered 'authentication required'", "no 'authentication required' reply in the authentication block")
-	// early replies before the auth block: returns that are reachable from entry without passing the auth test
-	early := map[string]bool{}
-	for _, r := range fg.Returns() {
-		if !fg.Dominates(al, r) {
-			// which command constants guard it?
-			for _, f := range fg.DominatingFacts(r) {
-				if f.Neg {
-					continue
-				}
-				ast.Inspect(f.E, func(n ast.Node) bool {
-					if be, ok := n.(*ast.BinaryExpr); ok && be.Op == token.EQL {
-						if v, ok := constString(info, be.Y); ok {
-							early[v] = true
+		case *ast.SwitchStmt:
+			if x.Tag != nil && isCmd(x.Tag) {
+				for _, cc := range x.Body.List {
+					for _, e := range cc.(*ast.CaseClause).List {
+						if v, ok := constString(info, e); ok {
+							consts[v] = true
 						}
 					}
-					return true
-				})
-				if f.Tag != nil {
-					if v, ok := constString(info, f.E); ok {
-						early[v] = true
+				}
+			}
+		}
+		return true
+	})
+	// 1. an ordinary command (one that none of these constants names) never reaches the lock switch
+	ok1 := true
+	var w1 []ast.Node
+	for _, ma := range []byte{'0', '1'} {
+		if r, w := c.scenReach(fg, hic.Decl.Body, scen("", true, ma), Loc{}, atSwitch, authStore); r {
+			ok1, w1 = false, w
+		}
+	}
+	c.checkPath(ok1, "auth-dominates-lock-switch", hic.Decl.Pos(), w1,
+		"with a password configured and client.authd false, no path reaches the lock switch (and therefore the dispatch) without storing client.authd = true",
+		"with a password configured, a command of a connection that has not authenticated reaches the lock switch")
+	// 2. the commands that do reach it unauthenticated
+	allowed := map[string]bool{"output": true, "healthz": true}
+	var exempt, badEx []string
+	for _, k := range sortedKeys(consts) {
+		for _, ma := range []byte{'0', '1'} {
+			if r, _ := c.scenReach(fg, hic.Decl.Body, scen(k, false, ma), Loc{}, atSwitch, authStore); r {
+				if len(exempt) == 0 || exempt[len(exempt)-1] != k {
+					exempt = append(exempt, k)
+					if !allowed[k] {
+						badEx = append(badEx, k)
 					}
 				}
 			}
 		}
 	}
-	allowedEarly := map[string]bool{"ping": true, "echo": true, "hello": true, "timeout": true, "output": true, "auth": true, "viewer": true, "viewer/": true}
-	var badEarly []string
-	for e := range early {
-		if !allowedEarly[e] {
-			badEarly = append(badEarly, e)
+	c.check(len(badEx) == 0, "auth-exemptions", hic.Decl.Pos(), fmt.Sprintf("commands dispatched without authentication %v ⊆ {output healthz}", exempt),
+		fmt.Sprintf("commands %v bypass the password test", badEx))
+	// 3. what the ordinary command is told
+	refusal := func(r *ast.ReturnStmt) bool {
+		for _, s := range returnStrings(info, r) {
+			if s == "authentication required" || s == "invalid password" {
+				return true
+			}
+		}
+		// reviewed: the pages of the built-in viewer (internal/viewer: embedded static files, no server state)
+		static := false
+		ast.Inspect(r, func(n ast.Node) bool {
+			if call, ok := n.(*ast.CallExpr); ok {
+				if f := callee(info, call); f != nil && f.Pkg() != nil && f.Pkg().Path() == modPath+"/internal/viewer" {
+					static = true
+				}
+			}
+			return true
+		})
+		return static
+	}
+	sawRequired := false
+	var other *ast.ReturnStmt
+	c.scenReach(fg, hic.Decl.Body, scen("", true, '0'), Loc{}, func(l Loc) bool {
+		if r, ok := l.Node.(*ast.ReturnStmt); ok {
+			if contains(returnStrings(info, r), "authentication required") {
+				sawRequired = true
+			} else if !refusal(r) && other == nil {
+				other = r
+			}
+		}
+		return false
+	}, authStore)
+	switch {
+	case other != nil:
+		c.bad("auth-required-reply", other.Pos(), "an unauthenticated ordinary command gets a reply other than the refusal")
+	case !sawRequired:
+		c.bad("auth-required-reply", hic.Decl.Pos(), "no 'authentication required' reply is reachable for an unauthenticated command")
+	default:
+		c.ok("auth-required-reply", hic.Decl.Pos(), true, "every return an unauthenticated ordinary command can reach is the refusal 'authentication required' (or 'invalid password'), or a static page of the built-in viewer")
+	}
+	// 4. commands answered without authentication
+	allowedEarly := map[string]bool{"ping": true, "echo": true, "hello": true, "timeout": true, "output": true, "auth": true}
+	var early, badEarly []string
+	for _, k := range sortedKeys(consts) {
+		answered := false
+		c.scenReach(fg, hic.Decl.Body, scen(k, false, '0'), Loc{}, func(l Loc) bool {
+			if r, ok := l.Node.(*ast.ReturnStmt); ok && !refusal(r) {
+				answered = true
+			}
+			return false
+		}, func(l Loc) bool { return authStore(l) || atSwitch(l) })
+		if answered {
+			early = append(early, k)
+			if !allowedEarly[k] {
+				badEarly = append(badEarly, k)
+			}
 		}
 	}
-	sort.Strings(badEarly)
-	c.check(len(badEarly) == 0, "early-replies", hic.Decl.Pos(), fmt.Sprintf("replies before the password test are limited to %v", sortedKeys(early)),
+	c.check(len(badEarly) == 0, "early-replies", hic.Decl.Pos(), fmt.Sprintf("replies before the password test are limited to %v", early),
 		fmt.Sprintf("commands %v are answered before the password test", badEarly))
 }
 
@@ -481,6 +548,35 @@ func ruleAuthdStore(c *Ctx) {
 			continue
 		}
 		fg := newFlowGraph(info, fn.Decl.Body)
+		// string locals that receive msg.Auth or an element of msg.Args
+		msgAuthField := c.Field("internal/server", "Message", "Auth")
+		msgArgsField := c.Field("internal/server", "Message", "Args")
+		pwVars := map[types.Object]bool{}
+		ast.Inspect(fn.Decl.Body, func(x ast.Node) bool {
+			as, ok := x.(*ast.AssignStmt)
+			if !ok || len(as.Lhs) != len(as.Rhs) {
+				return true
+			}
+			for i, l := range as.Lhs {
+				id, ok := ast.Unparen(l).(*ast.Ident)
+				if !ok {
+					continue
+				}
+				fromMsg := false
+				ast.Inspect(as.Rhs[i], func(y ast.Node) bool {
+					if se, ok := y.(*ast.SelectorExpr); ok {
+						if f := selField(info, se); f != nil && (f == msgAuthField || f == msgArgsField) {
+							fromMsg = true
+						}
+					}
+					return true
+				})
+				if fromMsg {
+					pwVars[info.ObjectOf(id)] = true
+				}
+			}
+			return true
+		})
 		for _, st := range stores {
 			n++
 			key := funcName(fn.Obj) + "→authd=true"
@@ -508,7 +604,12 @@ func ruleAuthdStore(c *Ctx) {
 								hasReq = true
 							}
 						}
-						if id, ok := x.(*ast.Ident); ok && id.Name == "password" {
+						// the supplied password: a string local (whatever it is called) fed from msg.Auth or
+						// the arguments, or msg.Auth itself
+						if id, ok := x.(*ast.Ident); ok && pwVars[info.ObjectOf(id)] {
+							hasPw = true
+						}
+						if se, ok := x.(*ast.SelectorExpr); ok && msgAuthField != nil && selField(info, se) == msgAuthField {
 							hasPw = true
 						}
 						return true
@@ -548,50 +649,53 @@ func ruleProtectedFirst(c *Ctx) {
 		return
 	}
 	fg := newFlowGraph(info, lit.Body)
-	reads := fg.FindCalls(func(f *types.Func, call *ast.CallExpr) bool {
-		return f != nil && f.Name() == "Read" && isNetConnRecv(info, call)
-	})
-	prot := fg.FindCalls(func(f *types.Func, call *ast.CallExpr) bool {
-		return isMethod(f, modPath+"/internal/server", "Server", "isProtected")
-	})
-	if len(reads) == 0 || len(prot) == 0 {
-		c.bad("protected-before-read", lit.Pos(), "conn.Read or isProtected() not found in the connection closure")
-		return
-	}
-	for _, r := range reads {
-		// every path from entry to the read passes the loop-back test; on the
-		// non-loop-back side it passes isProtected() whose true edge returns.
-		okDom := false
-		for _, p := range prot {
-			// the block testing isProtected must be reached on all non-loopback paths: the
-			// HasPrefix test dominates the read and the isProtected block is its true-branch
-			_ = p
-		}
-		pref := fg.FindCalls(func(f *types.Func, call *ast.CallExpr) bool { return isFunc(f, "strings", "HasPrefix") })
-		for _, h := range pref {
-			if fg.Dominates(h, r) {
-				okDom = true
-			}
-		}
-		// the read must not be reachable from the true edge of isProtected()
-		leak := false
-		for _, p := range prot {
-			b := p.Block
-			if len(b.Succs) == 2 {
-				reach, _ := fg.Reach(PathQuery{From: Loc{b, len(b.Nodes) - 1, nil}, Target: func(l Loc) bool { return l.Block == r.Block && l.Idx == r.Idx },
-					EdgeOK: func(from *cfgBlock, si int) bool { return !(from == b && si == 1) }})
-				if reach {
-					leak = true
+	isRead := func(l Loc) bool {
+		hit := false
+		inspectNoLit(l.Node, func(n ast.Node) bool {
+			if call, ok := n.(*ast.CallExpr); ok {
+				if f := callee(info, call); f != nil && f.Name() == "Read" && isNetConnRecv(info, call) {
+					hit = true
 				}
 			}
-			// and isProtected must be tested before the read on the non-loopback path: p dominates r is too strong (loop-back skips it),
-			// so require: r not reachable from entry when the HasPrefix true-branch... covered by okDom + leak.
-			if !fg.Reachable(b) {
-				leak = true
+			return true
+		})
+		return hit
+	}
+	// the situation: the peer is not a loop-back address (both prefix tests fail) and the server is protected
+	loopTests := 0
+	scen := func(loopback, protected byte) Scenario {
+		return func(info *types.Info, body ast.Node) func(e ast.Expr) byte {
+			return func(e ast.Expr) byte {
+				call, ok := ast.Unparen(e).(*ast.CallExpr)
+				if !ok {
+					return '?'
+				}
+				f := callee(info, call)
+				switch {
+				case isFunc(f, "strings", "HasPrefix") && len(call.Args) == 2:
+					if p, ok := constString(info, call.Args[1]); ok && (strings.HasPrefix(p, "127.") || strings.HasPrefix(p, "[::1]")) {
+						loopTests++
+						return loopback
+					}
+				case isMethod(f, modPath+"/internal/server", "Server", "isProtected"):
+					return protected
+				}
+				return '?'
 			}
 		}
-		c.check(okDom && !leak, "protected-before-read", r.Node.Pos(),
-			"the loop-back test dominates conn.Read and the protected branch cannot reach it", "conn.Read is reachable without the loop-back/protected-mode test, or after isProtected() returned true")
+	}
+	refused, w := c.scenReach(fg, lit.Body, scen('0', '1'), Loc{}, isRead, nil)
+	local, _ := c.scenReach(fg, lit.Body, scen('1', '1'), Loc{}, isRead, nil)
+	open, _ := c.scenReach(fg, lit.Body, scen('0', '0'), Loc{}, isRead, nil)
+	switch {
+	case loopTests == 0:
+		c.und("protected-before-read", lit.Pos(), "no loop-back prefix test (strings.HasPrefix(…, \"127.…\" / \"[::1]…\")) found on the way to conn.Read: the form of the peer test is not one this rule evaluates")
+	case !local || !open:
+		c.und("protected-before-read", lit.Pos(), "conn.Read is not reachable even for a loop-back peer or an unprotected server: the connection closure was not understood")
+	default:
+		c.checkPath(!refused, "protected-before-read", lit.Pos(), w,
+			"for a non-loop-back peer of a protected server no path of the connection closure reaches conn.Read (it does for a loop-back peer and for an unprotected server)",
+			"conn.Read is reachable for a non-loop-back peer although isProtected() is true")
 	}
 }
 
